@@ -301,6 +301,17 @@ def _family(tier):
         return trimesh.util.concatenate([a, b])
 
     fam.append(("box_with_cavity", box_with_cavity))
+
+    def c_shaped_through_hole():
+        # a plate with a C-shaped (non-convex) through hole: the hole's centroid lies in solid
+        # material, its representative point does not
+        from shapely.geometry import Polygon
+
+        outer = [(0, 0), (6, 0), (6, 6), (0, 6)]
+        c_hole = [(1, 1), (5, 1), (5, 2), (2, 2), (2, 4), (5, 4), (5, 5), (1, 5)]
+        return trimesh.creation.extrude_polygon(Polygon(outer, [c_hole]), height=2.0)
+
+    fam.append(("plate_with_c_hole", c_shaped_through_hole))
     return fam
 
 
